@@ -657,8 +657,14 @@ pub fn run(cli: Cli) -> ! {
     if cli.replay.is_some() {
         println!("C18 cases are printed in full in the replay file (chain, strategy, targets, player, host); the sweep is re-run, which re-evaluates that case.");
     }
-    let cx = Ctx { rep: &rep, evals: AtomicU64::new(0), refused: AtomicU64::new(0), routed: AtomicU64::new(0), filtered_some: AtomicU64::new(0) };
-    let thorough = cli.tier.thorough();
+    core(&rep, cli.tier.thorough());
+    rep.finish()
+}
+
+/// The enumeration over adapters built from configuration values (everything but the whole connections, which
+/// need sockets and live in netsim's C18).
+pub fn core(rep: &Report, thorough: bool) {
+    let cx = Ctx { rep, evals: AtomicU64::new(0), refused: AtomicU64::new(0), routed: AtomicU64::new(0), filtered_some: AtomicU64::new(0) };
     let shapes = target_shapes();
     let players = [P, Q, PQ];
     // the same adapter instance is asked about these hosts one after the other; two of them differ only in
@@ -787,5 +793,4 @@ pub fn run(cli: Cli) -> ! {
     rep.assume("absent, non-numeric and out-of-range player counts: the result is accepted if it is right under any of the readings (0 players / not eligible / numeric value)");
     rep.assume("an allow filter with no list configured at all is judged under both readings (nobody passes / inert)");
     rep.assume("regular expressions are the three fixed patterns ^p, q$, ^a\\. / ^b\\. whose meaning the oracle evaluates by prefix/suffix tests; the regex crate is trusted");
-    rep.finish()
 }
